@@ -30,6 +30,7 @@ class OneWayBarrier : public galois::substrate::Barrier {
   std::condition_variable cond;
   unsigned count;
   unsigned total;
+  unsigned left;
 
 public:
   OneWayBarrier(unsigned p) { reinit(p); }
@@ -38,6 +39,7 @@ public:
 
   virtual void reinit(unsigned val) {
     count = 0;
+    left  = 0;
     total = val;
   }
 
@@ -46,6 +48,14 @@ public:
     count += 1;
     cond.wait(tmp, [this]() { return count >= total; });
     cond.notify_all();
+    // the last thread to leave re-arms the barrier: resetting count any
+    // earlier makes a woken thread that has not yet re-checked the predicate
+    // wait forever. Nobody re-enters before that because SimpleBarrier puts
+    // its other one-way barrier in between.
+    if (++left == total) {
+      count = 0;
+      left  = 0;
+    }
   }
 
   virtual const char* name() const { return "OneWayBarrier"; }
@@ -54,26 +64,20 @@ public:
 class SimpleBarrier : public galois::substrate::Barrier {
   OneWayBarrier barrier1;
   OneWayBarrier barrier2;
-  unsigned total;
 
 public:
-  SimpleBarrier(unsigned p) : barrier1(p), barrier2(p), total(p) {}
+  SimpleBarrier(unsigned p) : barrier1(p), barrier2(p) {}
 
   virtual ~SimpleBarrier() {}
 
   virtual void reinit(unsigned val) {
-    total = val;
     barrier1.reinit(val);
     barrier2.reinit(val);
   }
 
   virtual void wait() {
     barrier1.wait();
-    if (galois::substrate::ThreadPool::getTID() == 0)
-      barrier1.reinit(total);
     barrier2.wait();
-    if (galois::substrate::ThreadPool::getTID() == 0)
-      barrier2.reinit(total);
   }
 
   virtual const char* name() const { return "SimpleBarrier"; }
